@@ -303,7 +303,9 @@ def main(chk):
         if bad:
             chk.fail(f"C01:train_{r['name']}:kept-transition", "tabular routine: " + bad[0], {"case": r["case"], **bad[1]})
         bad = None if r["res"]["raised"] else tabruns.check_conditioned(r["res"])
-        if bad:
+        if bad and bad[0] == "HOOK":      # the device is blind, not the property broken: a correspondence that no longer checks
+            chk.disagree("tabular-policy-hook", {"case": r["case"], **bad[1]})
+        elif bad:
             chk.fail(f"C01:train_{r['name']}:policy-observation", "tabular routine: " + bad[0], {"case": r["case"], **bad[1]})
         elif not r["res"]["raised"]:
             chk.count("tabular_policy_queries_checked", len([e for e in r["res"]["log"] if e[0] == "step"]))
